@@ -73,6 +73,11 @@ def sole_consumer(b, l, depth=0):
 
 
 def run(ctx, rep):
+    # "a new handle holding the deserialised value": whatever constructor the impls use writes the value it is given into the
+    # payload field before the handle exists (R-INIT of C06 over every allocation-to-handle region of the crate)
+    from . import c06
+
+    c06.rule_init(ctx, rep)
     seen_cfg = 0
     for tag, F, E in ctx.each():
         A = balance.analysis(tag, F, E)
